@@ -14,7 +14,8 @@ def run(tier: str, seed: int) -> Report:
         "%d DAGs built with OBJECT SHARING: one prefix P (table / extend / overwriting extend / select_rows / project / windowed extend) used twice, "
         "L = ext(P) and R = ext'(P) with ext in {nothing, a mergeable extend, the same column with another formula, another column, a two-step "
         "non-mergeable extend chain, select_rows}, combined by natural_join (on g, k; %s) or concat_rows (id_column None / 'src'), optionally followed by "
-        "one more mergeable extend. For each pipeline SQLiteModel SQL is generated for ALL 2^4 combinations of use_with, use_cte_elim, annotate, "
+        "one more mergeable extend; plus %d chains in which a windowed extend's partition_by / order_by column is created or overwritten by the immediately "
+        "preceding extend (new column / overwriting k, g, y; sum, max+count, cumsum with order_by and reverse; optionally after select_rows or followed by another extend). For each pipeline SQLiteModel SQL is generated for ALL 2^4 combinations of use_with, use_cte_elim, annotate, "
         "initial_commas x sql_indent in {' ', TAB, 4 spaces} x model.allow_extend_merges in {True, False} (96 variants) and executed on sqlite3 on %d "
         "non-empty data set(s) (tables <= %d rows); every variant's table is compared with the table of the default options (multiset of rows, plus the "
         "order-key sequence after a final order_rows). to_sql must raise for all variants or for none. PostgreSQLModel text with use_cte_elim True / False is "
@@ -22,10 +23,11 @@ def run(tier: str, seed: int) -> Report:
         "(ties in a window order / at a limit cut, convert_records keying) are skipped and counted. NONTRIVIAL iff at least one variant result was returned "
         "and compared with the default's."
         % (
-            "reduced grid" if tier == "quick" else "full grid",
-            "" if tier == "quick" else ", depth 3 reduced grid: 1/8 shard rotated by the seed",
+            "reduced grid" if tier == "quick" else "reduced grid + one half of the full grid (rotated by the seed)",
+            "" if tier == "quick" else ", depth 3 reduced grid: 1/16 shard rotated by the seed",
             len(c04.dag_cases(tier)),
             "inner, left" if tier == "quick" else "inner, left, full",
+            len(c04.struct_cases()),
             sc["per_case"],
             sc["max_rows"],
         )
